@@ -31,7 +31,7 @@ def bounds(tier):
             "axes": "every valid axis incl. negative for Stack/Concatenate/Vmap condition axis", "partial_index_kinds":
             ["int", "negative int", "slice", "strided slice", "int array", "bool array", "tuple", "ellipsis tuple"],
             "merge_transforms": "every word of length 1-4 (thorough 1-5) over {Affine, TriangularAffine, AdditiveCondition, Flip} nested over StandardNormal and Normal (2-6 levels)",
-            "integer_inputs": "every expression with real domain on two integer arrays vs the same values as floats",
+            "input_dtypes": "every expression with real domain on two int32 / float32 / float16 arrays vs the same values as float64",
             "exhaustive_within_bounds": True}
 
 
@@ -381,32 +381,36 @@ def run_case(case):
                 if sample is None:
                     sample = {"expr": cls, "opt": opt, "direction": direction, "x": X[0].tolist(), "real": np.asarray(y)[0].tolist(),
                               "definition": Yr[0].tolist()}
-        # integer-typed inputs (ArrayLike: "python built in numeric types (float, int)", integer arrays): same function as for the
-        # same values given as floats - a combinator must not truncate results into the input's integer dtype or refuse it
+        # other input dtypes (ArrayLike: "python built in numeric types (float, int)", integer arrays, float32 / float16 arrays while the
+        # parameters are float64): same function as for the same values given as float64 - a combinator must not truncate results
+        # into the input's dtype or refuse it. Values are small multiples of 1/2, exact in every dtype tried.
         if level == levels[-1]:
             for direction, avail, codes in (("fwd", ii.fwd, ii.dom), ("inv", ii.inv, ii.cod)):
                 if not avail or not np.all(codes == "R"):
                     continue
                 n_el = int(np.prod(ii.shape)) if ii.shape else 1
-                Xi = np.stack([((np.arange(n_el) * 3 + 1) % 5 - 2).reshape(ii.shape), ((np.arange(n_el) * 2) % 7 - 3).reshape(ii.shape)]).astype(np.int32)
+                Xb = np.stack([((np.arange(n_el) * 3 + 1) % 5 - 2).reshape(ii.shape), ((np.arange(n_el) * 2) % 7 - 3).reshape(ii.shape)]).astype(np.float64)
                 c = bt.conditions(ii.cond_shape, dtype, 2)[-1] if ii.cond_shape is not None else None
-                try:
-                    yf, yf2, ldf, _ = bt.run_padded(B_[direction], b, Xi.astype(dtype), c)
-                except Exception:
-                    continue  # judged by the main loop
-                transitions += 2
-                try:
-                    yi, yi2, ldi, _ = bt.run_padded(B_[direction], b, Xi, c)
-                except Exception as e:
-                    add(f"{direction}|int-input|raises|{type(e).__name__}", f"{cls} [{opt}]: {direction} of the integer array {Xi[0].tolist()} raised {type(e).__name__}: {str(e)[:160]} (the same values as floats are accepted)")
-                    continue
-                fin = np.isfinite(np.asarray(yf, float).reshape(2, -1)).all(1)
-                for nm, a_, b__ in (("point", yi, yf), ("point(and_log_det)", yi2, yf2), ("logdet", ldi, ldf)):
-                    a_, b__ = np.asarray(a_, float).reshape(2, -1), np.asarray(b__, float).reshape(2, -1)
-                    badi = fin & ~(np.abs(a_ - b__).max(1) <= 1e-5 * (1 + np.abs(b__).max(1)))
-                    if badi.any():
-                        i = int(np.argmax(badi))
-                        add(f"{direction}|int-input|{nm}", f"{cls} [{opt}]: {direction} {nm} of the integer array {Xi[i].tolist()} is {a_[i].tolist()} but {b__[i].tolist()} for the same values as floats")
+                for tname, tdt, vals in (("int", np.int32, Xb), ("float32", np.float32, Xb / 2), ("float16", np.float16, Xb / 2)):
+                    Xi = vals.astype(tdt)
+                    try:
+                        yf, yf2, ldf, _ = bt.run_padded(B_[direction], b, vals, c)
+                    except Exception:
+                        continue  # judged by the main loop
+                    transitions += 2
+                    try:
+                        yi, yi2, ldi, _ = bt.run_padded(B_[direction], b, Xi, c)
+                    except Exception as e:
+                        add(f"{direction}|{tname}-input|raises|{type(e).__name__}", f"{cls} [{opt}]: {direction} of the {tname} array {Xi[0].tolist()} raised {type(e).__name__}: {str(e)[:160]} (the same values as float64 are accepted)")
+                        continue
+                    fin = np.isfinite(np.asarray(yf, float).reshape(2, -1)).all(1)
+                    tol_ = 1e-5 if tname != "float16" else 5e-3  # a result may legitimately be held in the input's precision
+                    for nm, a_, b__ in (("point", yi, yf), ("point(and_log_det)", yi2, yf2), ("logdet", ldi, ldf)):
+                        a_, b__ = np.asarray(a_, float).reshape(2, -1), np.asarray(b__, float).reshape(2, -1)
+                        badi = fin & ~(np.abs(a_ - b__).max(1) <= tol_ * (1 + np.abs(b__).max(1)))
+                        if badi.any():
+                            i = int(np.argmax(badi))
+                            add(f"{direction}|{tname}-input|{nm}", f"{cls} [{opt}]: {direction} {nm} of the {tname} array {Xi[i].tolist()} is {a_[i].tolist()} but {b__[i].tolist()} for the same values as float64")
         # function-preserving rewrites on Chain states
         if spec["k"] == "Chain" and ii.fwd and not np.any(ii.dom == "X"):
             X = bt.input_batch(ii.dom, consts, dtype, max_points=64)[:8]
